@@ -3,6 +3,7 @@ use crate::error::WRONG_OFFSET;
 use crate::paged_reader::PagedReader;
 use crate::root::root_from_document;
 use crate::root::Root;
+use crate::xml;
 use crate::Blob;
 use crate::DateTime;
 use crate::Error;
@@ -58,6 +59,7 @@ impl<T: Read + Seek> E57Reader<T> {
             header.xml_length as usize,
         )?;
         let xml = String::from_utf8(xml_raw).read_err("Failed to parse XML as UTF8")?;
+        xml::check_depth(&xml)?;
         let document = Document::parse(&xml).invalid_err("Failed to parse XML data")?;
         let root = root_from_document(&document)?;
         let pointclouds = PointCloud::vec_from_document(&document)?;
